@@ -46,6 +46,9 @@ POSITIONS = {
     "after-loop-left-by-inner-else-break-top": "def f(a):\n    while a:\n        for i in range(a):\n            a -= 1\n"
                                                "        else:\n            if a == 3:\n                break\n        a -= 1\n"
                                                "    else:\n        return 0\n{S}\n    return a",
+    # the else clause of a loop whose test is a constant (the clause can never run, the statement is there all the same)
+    "while-true-else": "def f(a):\n    while True:\n        a -= 1\n        if a < 0:\n            break\n    else:\n{SS}\n    return a",
+    "while-one-else-nested": "def f(a):\n    while 1:\n        a -= 1\n        if a < 0:\n            break\n    else:\n        if a:\n{SSS}\n    return a",
     "after-if-one-arm-returns": "def f(a):\n    if a:\n        return 1\n    else:\n        a = 2\n{S}\n    return a",
 }
 
@@ -54,7 +57,7 @@ def programs():
     for kind, snip in SNIPPETS.items():
         for pos, tmpl in POSITIONS.items():
             src = tmpl
-            for key, ind in (("{SSSS}", 16), ("{SS}", 8), ("{S}", 4)):
+            for key, ind in (("{SSSS}", 16), ("{SSS}", 12), ("{SS}", 8), ("{S}", 4)):
                 src = src.replace(key, textwrap.indent(snip, " " * ind))
             yield kind, pos, src
     # a second top-level statement that is not the function
@@ -125,6 +128,10 @@ def run(ctx):
         lines.append(f"REFUSES {wire} {abstract(tree.body)}")
     # non-function input
     nonfn = [("non-function:assign-first", "x = 1\ndef f(a):\n    return a"), ("non-function:expression", "1 + 1")]
+    # already parsed input (a list of ast nodes) whose first element is not a function definition
+    nonfn += [("non-function:ast-list-assign", ast.parse("x = 1").body), ("non-function:ast-list-expr", ast.parse("f(1)").body),
+              ("non-function:ast-list-if", ast.parse("if a:\n    b = 1").body), ("non-function:ast-list-while", ast.parse("while a:\n    a -= 1").body),
+              ("non-function:ast-list-class", ast.parse("class C:\n    pass").body)]
     nf_out = []
     for tag, src in nonfn:
         nf_out.append((tag, outcome(src, (NotImplementedError, AssertionError))))
